@@ -1,6 +1,7 @@
 package main
 
 import (
+	"bytes"
 	"os"
 	"path/filepath"
 	"strings"
@@ -74,4 +75,141 @@ func TestKeyEntries(t *testing.T) {
 	gs := func(s string) string { return s[strings.Index(s, "gstack_skeleton"):] }
 	check(gs(pinned), "Values", `("Values", [Sec [] [`+rdSE+`]; Sec [("mux", Rd)] [`+rdSE+`]])`)
 	check(gs(fixed), "Values", `("Values", [Sec [("mux", Rd)] [`+rdSE+`]])`)
+}
+
+// ---------------------------------------------------------------------------------------------
+// field mode (fields.go): several fields, several mutexes, go statements, closures, defer, select
+//
+//	fields_main        storage/fifoMapCache.go and workqueue/queue.go as on main -> expected_<file>
+//	fields_mut         (i) Sweep without RLock, pinned getCurrentPartition, an unlocked fast path,
+//	                   (ii) the monitor ranging over the subscribers without the mutex (pinned F14),
+//	                   (iii) an append outside the mutex
+//	fields_failclosed  a synthetic type: shapes that must be analysed and shapes that must be [Unknown]
+// ---------------------------------------------------------------------------------------------
+
+func TestFieldsGolden(t *testing.T) {
+	for _, c := range []string{"fields_main", "fields_mut"} {
+		dir := filepath.Join("..", "testdata", c)
+		for _, g := range fgroups {
+			got, _, _, err := generateGroup(dir, g)
+			if err != nil {
+				t.Fatalf("%s: %v", c, err)
+			}
+			wantFile := filepath.Join(dir, "expected_"+g.outFile)
+			if os.Getenv("LOCKSKEL_UPDATE") != "" {
+				os.WriteFile(wantFile, got, 0o644)
+			}
+			want, err := os.ReadFile(wantFile)
+			if err != nil {
+				t.Fatalf("%s: %v", c, err)
+			}
+			if string(got) != string(want) {
+				t.Errorf("%s/%s: output differs from expected\n--- got\n%s", c, g.outFile, got)
+			}
+		}
+	}
+}
+
+func fieldGen(t *testing.T, dir string, gi int) string {
+	got, _, _, err := generateGroup(filepath.Join("..", "testdata", dir), fgroups[gi])
+	if err != nil {
+		t.Fatal(err)
+	}
+	return string(got)
+}
+
+func rd(f string) string  { return `{| loc := "` + f + `"; wr := false |}` }
+func wrt(f string) string { return `{| loc := "` + f + `"; wr := true |}` }
+
+func TestFieldsKeyEntries(t *testing.T) {
+	check := func(text, name, want string) {
+		t.Helper()
+		if got := entryLine(t, text, name); got != want {
+			t.Errorf("%s:\n got  %s\n want %s", name, got, want)
+		}
+	}
+	cpmR, cpmW, swm := `("currentPartitionMux", Rd)`, `("currentPartitionMux", Wr)`, `("sweepingMux", Wr)`
+	fast := `Sec [` + cpmR + `] [` + rd("partitions") + `; ` + rd("currentPartitionId") + `; ` + rd("partitionCapacity") + `]`
+	slow := `Sec [` + cpmW + `] [` + rd("partitions") + `; ` + rd("currentPartitionId") + `; ` + rd("partitionCapacity") + `; ` + wrt("currentPartitionId") + `]`
+	cache := fieldGen(t, "fields_main", 0)
+	check(cache, "getCurrentPartition", `("getCurrentPartition", [`+fast+`; `+slow+`])`)
+	check(cache, "Sweep", `("Sweep", [Sec [`+swm+`] []; Sec [`+swm+`; `+cpmR+`] [`+rd("partitions")+`; `+rd("maxPartitions")+`]])`)
+	check(cache, "Get", `("Get", [Sec [] [`+rd("valuePartitionIndex")+`; `+rd("partitions")+`]])`)
+	check(cache, "Capacity", `("Capacity", [Sec [] [`+rd("maxPartitions")+`; `+rd("partitionCapacity")+`]])`)
+	check(cache, "Clear", `("Clear", [Sec [`+cpmW+`] [`+rd("maxPartitions")+`; `+wrt("partitions")+`; `+wrt("valuePartitionIndex")+`; `+rd("partitionCapacity")+`; `+rd("partitions")+`; `+wrt("currentPartitionId")+`]])`)
+	mut := fieldGen(t, "fields_mut", 0)
+	check(mut, "Sweep", `("Sweep", [Sec [`+swm+`] [`+rd("partitions")+`; `+rd("maxPartitions")+`]])`)
+	check(mut, "getCurrentPartitionPinned", `("getCurrentPartitionPinned", [`+fast+`; Sec [`+cpmW+`] [`+rd("partitionCapacity")+`; `+rd("partitions")+`; `+wrt("currentPartitionId")+`; `+rd("currentPartitionId")+`]])`)
+	check(mut, "currentIdUnlocked", `("currentIdUnlocked", [Sec [] [`+rd("currentPartitionId")+`]])`)
+
+	em := `("errSubScriberMux", Wr)`
+	es := "errorSubscribers"
+	wq := fieldGen(t, "fields_main", 1)
+	wqErr := wq[strings.Index(wq, "wq_err_skeleton"):strings.Index(wq, "wq_shared_skeleton")]
+	check(wqErr, "Errors", `("Errors", [Sec [`+em+`] [`+rd(es)+`; `+wrt(es)+`]])`)
+	check(wqErr, "start.func2", `("start.func2", [Sec [`+em+`] [`+rd(es)+`]])`)
+	check(wqErr, "start", `("start", [])`)
+	wqm := fieldGen(t, "fields_mut", 1)
+	wqmErr := wqm[strings.Index(wqm, "wq_err_skeleton"):strings.Index(wqm, "wq_shared_skeleton")]
+	check(wqmErr, "start.func2", `("start.func2", [Sec [] [`+rd(es)+`]])`)
+	check(wqmErr, "Errors2", `("Errors2", [Sec [`+em+`] []; Sec [] [`+rd(es)+`; `+wrt(es)+`]])`)
+}
+
+var boxTarget = ftarget{file: "box.go", typeName: "Box", locks: []string{"mu", "aux"},
+	fields: []string{"items", "n", "ptr"}, defName: "box_skeleton"}
+
+func TestFieldsFailClosed(t *testing.T) {
+	fc, err := loadFile(filepath.Join("..", "testdata", "fields_failclosed", "box.go"))
+	if err != nil {
+		t.Fatal(err)
+	}
+	var buf bytes.Buffer
+	es := analyseFieldTarget(fc, boxTarget)
+	renderFields(&buf, boxTarget, es)
+	text := buf.String()
+	wantFile := filepath.Join("..", "testdata", "fields_failclosed", "expected.v")
+	if os.Getenv("LOCKSKEL_UPDATE") != "" {
+		os.WriteFile(wantFile, buf.Bytes(), 0o644)
+	}
+	if want, err := os.ReadFile(wantFile); err != nil || string(want) != text {
+		t.Errorf("fields_failclosed: output differs from expected.v (%v)\n--- got\n%s", err, text)
+	}
+	check := func(name, want string) {
+		t.Helper()
+		if got := entryLine(t, text, name); got != want {
+			t.Errorf("%s:\n got  %s\n want %s", name, got, want)
+		}
+	}
+	muR, muW, aux := `("mu", Rd)`, `("mu", Wr)`, `("aux", Wr)`
+	check("Nested", `("Nested", [Sec [`+aux+`] []; Sec [`+aux+`; `+muR+`] [`+rd("n")+`; `+rd("items")+`]])`)
+	check("Writes", `("Writes", [Sec [`+muW+`] [`+rd("items")+`; `+wrt("items")+`; `+rd("n")+`; `+wrt("n")+`]; Sec [`+aux+`] [`+rd("n")+`; `+wrt("n")+`]])`)
+	check("Through", `("Through", [Sec [] [`+rd("ptr")+`]])`)
+	check("Spawns", `("Spawns", [Sec [`+muW+`] [`+wrt("n")+`]])`)
+	check("Spawns.func1", `("Spawns.func1", [Sec [`+muR+`] [`+rd("n")+`]; Sec [] [`+wrt("n")+`]])`)
+	check("Deferred", `("Deferred", [Sec [`+muW+`] [`+wrt("n")+`]; Sec [] [`+wrt("n")+`]])`)
+	check("FastSlow", `("FastSlow", [Sec [`+muR+`] [`+rd("n")+`]; Sec [`+muW+`] [`+wrt("n")+`; `+rd("n")+`]])`)
+	check("Calls", `("Calls", [Sec [] [`+rd("ptr")+`]; Sec [`+muW+`] []; Sec [`+muR+`] [`+rd("n")+`]; Sec [`+muW+`] [`+wrt("n")+`; `+rd("n")+`]])`)
+	check("Snapshot", `("Snapshot", [Sec [`+muR+`] [`+rd("items")+`]])`)
+	check("Loop", `("Loop", [Sec [`+muR+`] [`+rd("n")+`]])`)
+	for _, n := range []string{"EscapeRecv", "PassRecv", "AliasSlice", "ReturnSlice", "SubSlice", "AddrField", "AddrFree",
+		"MethodValue", "StoreLock", "TryLock", "RLockOnMutex", "Reentrant", "CallUnderLock", "LeakOnReturn", "NeverUnlocked",
+		"AppendElsewhere", "DeferMethod", "GoWithRecv", "LockInIf", "CaptureElsewhere", "SelectUnbalanced",
+		"RangeWithLockInside", "DeferInLoop", "Goto", "ValueReceiver", "Merge"} {
+		check(n, `("`+n+`", [Unknown])`)
+	}
+	// a lock that is not a sync mutex, a field that does not exist: everything is Unknown
+	bad := boxTarget
+	bad.locks = []string{"done"}
+	for _, e := range analyseFieldTarget(fc, bad) {
+		if !e.unknown {
+			t.Errorf("bad lock: %s is not Unknown", e.name)
+		}
+	}
+	bad = boxTarget
+	bad.fields = []string{"nosuch"}
+	for _, e := range analyseFieldTarget(fc, bad) {
+		if !e.unknown {
+			t.Errorf("bad field: %s is not Unknown", e.name)
+		}
+	}
 }
